@@ -205,3 +205,5 @@ PROPERTY = PropertySpec(
     technique='contract-based verification: run-time contract (raises-clause, effect clause, statement-count clause) on the real parser, exhaustive bounded enumeration',
     design_ref='DESIGN.md section 10 / C13',
 )
+
+PROPERTY.explanation += ' A lemma on the ast of parse_model requires that an exec of statement text cannot bind names in a live namespace (no explicit globals / locals mapping); the bounded layer carries canaries for printed output, imported modules, warning filters, the working directory and new names in the fsic / builtins / __main__ namespaces, and the tokeniser differential with its time limit (termination).'
